@@ -1,8 +1,10 @@
 import Bermuda.Model.CodecJson
 import Bermuda.Spec.C05
+import Bermuda.Model.CodecLayout
 open Lean Bermuda Bermuda.Codec
 
-/-- Line-protocol driver of the codec model (C05 / C06). Everything is `Codec.handle`; the answer to `pycase`
+/-- Line-protocol driver of the codec model (C06; `case` additionally answers `layoutDecodeEq`: `Codec.decodeLayout`, the
+decoder written from the layout description, recovers the cells from the implementation's file). Everything is `Codec.handle`; the answer to `pycase`
 (the writer as written, also on NON-coherent triangles) additionally carries the read-back oracle of theorem
 `C05.decode_encodePy_firstRepr`: `firstRepr cells`, and — when the request holds `impl`, what `from_binary`
 returned for the implementation's file — `readBackSpec = Spec.C05.roundTrip (firstRepr cells) impl`. -/
@@ -19,6 +21,14 @@ def handlePy (j : Json) : Except String Json := do
                     ("readBackIsOriginal", Json.bool (Spec.C05.roundTrip cells r))]
        | none => [])
     return out.mergeObj (Json.mkObj extra)
+  | "case" =>
+    -- the decoder written from the layout description (theorem C06.decodeLayout_encode) on the IMPLEMENTATION's file
+    let cells ← rawCellsFromJson (← j.getObjVal? "cells")
+    let fb ← hexFromJson (← j.getObjVal? "file")
+    let ok := match decodeLayout fb with
+      | .ok r => r == cells
+      | .error _ => false
+    return out.mergeObj (Json.mkObj [("layoutDecodeEq", Json.bool ok)])
   | _ => return out
 
 def main : IO Unit := serve handlePy
